@@ -742,7 +742,11 @@ class Interp:
         prev = segs[-2] if len(segs) > 1 else None
         if prev in VARIANTS and last in VARIANTS[prev]:
             idx = VARIANTS[prev].index(last)
-            return SEnum(prev, idx, {idx: dict(fields)})
+            f = dict(fields)
+            if named:      # struct-like variant: fields are also addressed positionally in declaration order
+                for i, (fname, v) in enumerate(fields.items()):
+                    f.setdefault(i, v)
+            return SEnum(prev, idx, {idx: f})
         nm = last
         # struct: named fields are positional in place projections (.0, .1 by declaration order) - keep both keys
         f = dict(fields)
